@@ -91,7 +91,9 @@ Lemma ex_text : RFC_text ex_txt ex_v.
 Proof.
   exists [239; 187; 191], [32; 10], ex_obj, [32; 10].
   split; [reflexivity|]. split; [right; reflexivity|]. split; [reflexivity|]. split; [reflexivity|].
-  apply (ex_obj_value 998).
+  (* nesting_limit = S (S _) whatever CJSON_NESTING_LIMIT >= 2 the source under test defines *)
+  replace nesting_limit with (S (S (Nat.pred (Nat.pred nesting_limit)))) by (vm_compute; reflexivity).
+  apply ex_obj_value.
 Qed.
 
 Lemma ex_ok : jv_ok ex_v.
